@@ -29,13 +29,32 @@ def scratch():
 
 
 def _mk():
+    """The top-level process of a check owns ONE root directory (named after its pid, removed at its exit); every worker process forked from it
+    (multiprocessing pools do not run atexit handlers) and every subprocess makes its own directory inside that root."""
     global _SCRATCH, _SCRATCH_PID
     import atexit
-    base = os.environ.get("VERIF_SCRATCH") or tempfile.gettempdir()
-    _SCRATCH = tempfile.mkdtemp(prefix="tlxv_", dir=base)
+    root = os.environ.get("VERIF_SCRATCH_ROOT")
+    if not root or not os.path.isdir(root):
+        base = os.environ.get("VERIF_SCRATCH") or tempfile.gettempdir()
+        _sweep(base)
+        root = tempfile.mkdtemp(prefix="tlxr_%d_" % os.getpid(), dir=base)
+        os.environ["VERIF_SCRATCH_ROOT"] = root
+        pid = os.getpid()
+        atexit.register(lambda: os.getpid() == pid and shutil.rmtree(root, ignore_errors=True))
+    _SCRATCH = tempfile.mkdtemp(prefix="w%d_" % os.getpid(), dir=root)
     _SCRATCH_PID = os.getpid()
-    d, pid = _SCRATCH, _SCRATCH_PID
-    atexit.register(lambda: os.getpid() == pid and shutil.rmtree(d, ignore_errors=True))
+
+
+def _sweep(base):
+    """remove roots left behind by check processes that no longer exist (killed by a timeout, for instance)"""
+    try:
+        for n in os.listdir(base):
+            if n.startswith("tlxr_"):
+                parts = n.split("_")
+                if len(parts) >= 3 and parts[1].isdigit() and not os.path.exists("/proc/%s" % parts[1]):
+                    shutil.rmtree(os.path.join(base, n), ignore_errors=True)
+    except OSError:
+        pass
 
 
 _SCRATCH_PID = None
